@@ -63,8 +63,10 @@ CoordShapes(kt) == IF kt = "ed" THEN {"any"}
 JwkMods == {"none", "off_curve", "x_short", "x_long", "y_short", "y_long", "x_empty", "wrong_crv_name", "x_not_base64", "x_short_shadowed",
             "x_plus_p",
             \* x one byte short and y one byte long at once (the point as a whole has the right size)
-            "x_short_y_long"}
-ModApplies(kt, m) == kt # "ed" \/ m \in {"none", "x_short", "x_long", "x_empty", "x_not_base64", "x_short_shadowed"}
+            "x_short_y_long",
+            \* the right coordinate behind 256 zero bytes (a width that is right modulo 256)
+            "x_long_256"}
+ModApplies(kt, m) == kt # "ed" \/ m \in {"none", "x_short", "x_long", "x_empty", "x_not_base64", "x_short_shadowed", "x_long_256"}
 
 JwkCases == {[kind |-> "jwk", kt |-> kt, shape |-> sh, mod |-> m] : kt \in KeyTypes,
                sh \in {"any", "normal", "x_leading_zero", "y_leading_zero", "x_two_leading_zeros", "both_leading_zero"}, m \in JwkMods}
